@@ -160,6 +160,12 @@ func genC16(x *Ctx) *c16Scen {
 			if tp.Chance(8) {
 				r.Size = []int{33000, 66000}[tp.G(2)] // beyond the deflate window / 64 KiB
 			}
+			if tp.Chance(1) {
+				r.Size = 1500000 // beyond any megabyte-sized limit somebody might introduce
+				if x.Thorough() && tp.Chance(200) {
+					r.Size = 12000000
+				}
+			}
 			r.Seed = tp.G(1 << 20)
 			r.BChunks = chunkPlan(tp, tp.Range(1, 3), 97)
 			if r.Coding == "gzip" && tp.Chance(120) {
